@@ -744,6 +744,69 @@ func (p *Prog) errorSurfaces(fn *ssa.Function, ev ssa.Value) (bool, string) {
 				return true, "returned directly"
 			}
 		}
+		// handed to a private helper that tests it before doing anything else and whose own error surfaces here
+		if ev.Referrers() != nil {
+			for _, ref := range *ev.Referrers() {
+				c, isCall := ref.(*ssa.Call)
+				if !isCall {
+					continue
+				}
+				g := c.Call.StaticCallee()
+				if g == nil || g.Pkg != p.RootSSA || g.Object() == nil || g.Object().Exported() || len(g.Blocks) == 0 || !lastResultIsError(g) || g == fn {
+					continue
+				}
+				for i, a := range c.Call.Args {
+					if a != ev || i >= len(g.Params) {
+						continue
+					}
+					okIn, _ := p.errorSurfaces(g, g.Params[i])
+					if !okIn {
+						continue
+					}
+					// nothing is written in the helper before the test
+					early := false
+					var testBlk *ssa.BasicBlock
+					for _, b := range g.Blocks {
+						if ifi, ok := b.Instrs[len(b.Instrs)-1].(*ssa.If); ok {
+							if x, _, ok := errTestOf(ifi); ok && sameValue(x, g.Params[i]) {
+								testBlk = b
+							}
+						}
+					}
+					if testBlk != nil {
+						early = true
+						for _, b := range g.Blocks {
+							if b == testBlk || !blockReaches(b, testBlk, nil) {
+								continue
+							}
+							for _, y := range b.Instrs {
+								if _, _, ok := p.baseWrite(y); ok {
+									early = false
+								}
+							}
+						}
+					}
+					if !early {
+						continue
+					}
+					var res ssa.Value
+					if isErrorType(c.Type()) {
+						res = c
+					} else if c.Referrers() != nil {
+						for _, r2 := range *c.Referrers() {
+							if ex, ok := r2.(*ssa.Extract); ok && isErrorType(ex.Type()) {
+								res = ex
+							}
+						}
+					}
+					if res != nil {
+						if ok2, _ := p.errorSurfaces(fn, res); ok2 {
+							return true, "handed to " + g.Name() + ", which returns it before doing anything else; that result is surfaced"
+						}
+					}
+				}
+			}
+		}
 		return false, "error value is never tested against nil nor returned"
 	}
 	okAll := true
